@@ -325,3 +325,206 @@ def rule_index_guards(chk, idx, rid, mod_prefix, floor=1, exempt=None):
 
 def slack_of(subs):
     return max(s for _, s in subs)
+
+
+# ---------------------------------------------------------------------------------------------------------------
+# kind contradictions: a local that the function itself only ever binds to offsets (sums and differences of .start / .length /
+# len() / match positions / integer literals) is an integer; one it only binds to pieces of text (slices and .strip() / .lower()
+# of a str, .group(), string literals) is a string.  Using an integer local as a sized or subscripted thing, calling a string
+# method on it, or adding it to a string raises TypeError whenever the statement is reached - and the date-time model answers
+# an exception anywhere below it with an empty result for the whole query.  Inference is deliberately local and unanimous
+# (every binding of the name must agree, parameters count only through an `int` / `str` annotation), so a flagged site is a
+# contradiction inside one function, not a guess about a callee.
+
+_INT_ATTR = {'start', 'length', 'end'}
+_STR_PRODUCING = {'strip', 'lstrip', 'rstrip', 'lower', 'upper', 'casefold', 'replace', 'title', 'format', 'join'}
+_STR_ONLY = _STR_PRODUCING | {'startswith', 'endswith', 'split', 'isspace', 'isdigit', 'isalpha', 'encode'}
+
+
+def _ann_kind(a):
+    if isinstance(a, ast.Name) and a.id in ('int', 'str'):
+        return a.id
+    return None
+
+
+def _kind(e, env):
+    if isinstance(e, ast.Constant):
+        if isinstance(e.value, bool):
+            return None
+        if isinstance(e.value, int):
+            return 'int'
+        if isinstance(e.value, str):
+            return 'str'
+        return None
+    if isinstance(e, ast.JoinedStr):
+        return 'str'
+    if isinstance(e, ast.Name):
+        return env.get(e.id)
+    if isinstance(e, ast.Attribute):
+        return 'int' if e.attr in _INT_ATTR else None
+    if isinstance(e, ast.BinOp):
+        l, r = _kind(e.left, env), _kind(e.right, env)
+        if isinstance(e.op, (ast.Add, ast.Sub, ast.Mult, ast.FloorDiv, ast.Mod)) and l == 'int' and r == 'int':
+            return 'int'
+        if isinstance(e.op, ast.Add) and l == 'str' and r == 'str':
+            return 'str'
+        return None
+    if isinstance(e, ast.BoolOp) and isinstance(e.op, ast.Or):
+        ks = {_kind(v, env) for v in e.values}
+        return ks.pop() if len(ks) == 1 else None
+    if isinstance(e, ast.IfExp):
+        ks = {_kind(e.body, env), _kind(e.orelse, env)}
+        return ks.pop() if len(ks) == 1 else None
+    if isinstance(e, ast.Call):
+        f = e.func
+        if isinstance(f, ast.Name):
+            if f.id == 'len':
+                return 'int'
+            if f.id == 'str':
+                return 'str'
+            return None
+        if isinstance(f, ast.Attribute):
+            recv = _kind(f.value, env)
+            if f.attr in ('index', 'find', 'rfind', 'rindex', 'count') and recv == 'str':
+                return 'int'
+            if f.attr in _STR_PRODUCING and recv == 'str':
+                return 'str'
+        return None
+    if isinstance(e, ast.Subscript) and _kind(e.value, env) == 'str':
+        return 'str'
+    return None
+
+
+def local_kinds(fn):
+    """{local name: 'int' | 'str'} where every binding of the name in fn agrees (see above)"""
+    binds = {}
+
+    def add(n, v):
+        binds.setdefault(n, []).append(v)
+    for x in ast.walk(fn):
+        if isinstance(x, ast.Assign):
+            for t in x.targets:
+                if isinstance(t, ast.Name):
+                    add(t.id, x.value)
+                else:
+                    for el in ast.walk(t):
+                        if isinstance(el, ast.Name) and isinstance(el.ctx, ast.Store):
+                            add(el.id, None)
+        elif isinstance(x, ast.AnnAssign) and isinstance(x.target, ast.Name):
+            add(x.target.id, x.value)
+        elif isinstance(x, ast.AugAssign) and isinstance(x.target, ast.Name):
+            add(x.target.id, ast.BinOp(left=ast.Name(id=x.target.id, ctx=ast.Load()), op=x.op, right=x.value))
+        elif isinstance(x, ast.NamedExpr):
+            add(x.target.id, x.value)
+        elif isinstance(x, (ast.For, ast.AsyncFor, ast.comprehension)):
+            for el in ast.walk(x.target):
+                if isinstance(el, ast.Name):
+                    add(el.id, None)
+        elif isinstance(x, (ast.With, ast.AsyncWith)):
+            for it in x.items:
+                if it.optional_vars is not None:
+                    for el in ast.walk(it.optional_vars):
+                        if isinstance(el, ast.Name):
+                            add(el.id, None)
+        elif isinstance(x, ast.ExceptHandler) and x.name:
+            add(x.name, None)
+        elif isinstance(x, (ast.Global, ast.Nonlocal)):
+            for n in x.names:
+                add(n, None)
+        elif isinstance(x, (ast.FunctionDef, ast.AsyncFunctionDef, ast.Lambda)) and x is not fn:
+            for a in ast.walk(x.args):
+                if isinstance(a, ast.arg):
+                    add(a.arg, None)
+        elif isinstance(x, (ast.Import, ast.ImportFrom)):
+            for a in x.names:
+                add((a.asname or a.name).split('.')[0], None)
+    env = {}
+    for a in list(fn.args.posonlyargs) + list(fn.args.args) + list(fn.args.kwonlyargs):
+        k = _ann_kind(a.annotation)
+        if k and a.arg not in binds:
+            env[a.arg] = k
+        elif a.arg not in binds:
+            binds[a.arg] = [None]
+        else:
+            binds[a.arg].append(None)
+    for a in (fn.args.vararg, fn.args.kwarg):
+        if a is not None:
+            binds.setdefault(a.arg, []).append(None)
+    changed = True
+    while changed:
+        changed = False
+        for n, vs in binds.items():
+            if n in env or any(v is None for v in vs):
+                continue
+            for K in ('int', 'str'):
+                env2 = dict(env)
+                env2[n] = K
+                if all(_kind(v, env2) == K for v in vs) and any(_kind(v, env) == K for v in vs):
+                    env[n] = K
+                    changed = True
+                    break
+    return env
+
+
+def kind_uses(fn):
+    """[(node, name, kind, use, ok)] for the uses of kinded locals that only one kind supports"""
+    env = local_kinds(fn)
+    out = []
+    if not env:
+        return out
+    for x in ast.walk(fn):
+        if isinstance(x, ast.Call) and isinstance(x.func, ast.Name) and x.func.id == 'len' and len(x.args) == 1 \
+                and isinstance(x.args[0], ast.Name) and x.args[0].id in env:
+            k = env[x.args[0].id]
+            out.append((x, x.args[0].id, k, 'len()', k == 'str'))
+        elif isinstance(x, ast.Subscript) and isinstance(x.value, ast.Name) and x.value.id in env and isinstance(x.ctx, ast.Load):
+            k = env[x.value.id]
+            out.append((x, x.value.id, k, 'subscript', k == 'str'))
+        elif isinstance(x, ast.Attribute) and isinstance(x.value, ast.Name) and x.value.id in env and x.attr in _STR_ONLY:
+            k = env[x.value.id]
+            out.append((x, x.value.id, k, '.%s' % x.attr, k == 'str'))
+        elif isinstance(x, ast.BinOp) and isinstance(x.op, (ast.Add, ast.Sub)):
+            l, r = _kind(x.left, env), _kind(x.right, env)
+            if l and r and (isinstance(x.left, ast.Name) or isinstance(x.right, ast.Name)):
+                nm = x.left.id if isinstance(x.left, ast.Name) else x.right.id
+                if isinstance(x.op, ast.Sub):
+                    out.append((x, nm, '%s-%s' % (l, r), 'difference', l == 'int' and r == 'int'))
+                else:
+                    out.append((x, nm, '%s+%s' % (l, r), 'sum', l == r))
+        elif isinstance(x, ast.Subscript) and isinstance(x.slice, ast.Slice):
+            for b in (x.slice.lower, x.slice.upper):
+                if isinstance(b, ast.Name) and b.id in env:
+                    out.append((x, b.id, env[b.id], 'slice bound', env[b.id] == 'int'))
+    return out
+
+
+KIND_CONTROL = '''
+def f(self, source: str, ers, i, j):
+    middle_begin = ers[i].start + ers[i].length
+    middle_end = ers[j].start
+    middle_str = source[middle_begin:middle_end].strip()
+    return middle_str[0:len(middle_end)]
+'''
+
+
+def rule_kind_contradictions(chk, idx, rid, mod_prefix, floor=1):
+    chk.rule(rid, 'a local the function only ever binds to offsets is not used as a sized / subscripted / text value, and a '
+                  'local it only binds to text is not used as an offset (either raises TypeError when reached, which the model '
+                  'answers with an empty result for the whole query)', floor=floor, control=True)
+    ctl = kind_uses(ast.parse(KIND_CONTROL).body[0])
+    chk.control(rid, any(not ok and use == 'len()' and name == 'middle_end' for _, name, _, use, ok in ctl)
+                and any(ok and name == 'middle_str' for _, name, _, use, ok in ctl))
+    for mod, cls, fn in idx.functions():
+        if not mod.name.startswith(mod_prefix) or '.resources.' in mod.name:
+            continue
+        q = (cls.name + '.' if cls else '') + fn.name
+        agg = {}
+        for node, name, kind, use, ok in kind_uses(fn):
+            agg.setdefault((name, kind, use, ok), []).append(node)
+        for (name, kind, use, ok), nodes in sorted(agg.items(), key=lambda kv: (kv[0][0], kv[0][2], kv[0][3])):
+            chk.consulted(mod.path)
+            chk.judge(ok, rid, mod.path, '%s::%s' % (q, name), '%s of %s local%s' % (use, kind, '' if ok else ' (contradiction)'),
+                      '%s: `%s` is only ever bound to %s values in this function, yet line %d uses it as `%s` - that raises '
+                      'TypeError whenever the statement is reached' % (q, name, 'offset (int)' if kind.startswith('int') else kind,
+                                                                      nodes[0].lineno, ast.unparse(nodes[0])[:80]),
+                      nodes[0].lineno)
